@@ -36,6 +36,33 @@ def find_sig(mod, name):
     for s in cands:
         if s.backtrace[-1][0] == name:
             return s
+    # registers written through FSM NextValue: scan the (not yet lowered) FSM actions of the module and its submodules
+    from migen.genlib.fsm import NextValue, FSM
+    from migen.fhdl.structure import If, Case, Signal
+
+    def walk(st):
+        if isinstance(st, (list, tuple)):
+            for x in st:
+                yield from walk(x)
+        elif isinstance(st, NextValue):
+            yield st.target
+        elif isinstance(st, If):
+            yield from walk(st.t)
+            yield from walk(st.f)
+        elif isinstance(st, Case):
+            for v in st.cases.values():
+                yield from walk(v)
+
+    def fsms(m):
+        for _, sub in getattr(m, "_submodules", []):
+            if isinstance(sub, FSM):
+                yield sub
+            yield from fsms(sub)
+    for fsm in fsms(mod):
+        for acts in fsm.actions.values():
+            for t in walk(acts):
+                if isinstance(t, Signal) and t.backtrace[-1][0] == name:
+                    return t
     raise KeyError(name)
 
 
